@@ -66,6 +66,12 @@ Theorem C02_sequence_pattern_str_refuted :
 Proof. exact sequence_pattern_str_refuted. Qed.
 Print Assumptions C02_sequence_pattern_str_refuted.
 
+Theorem C02_assert_promotion_refuted :
+  exists V c pol o, wf_obj o = true /\ cond_ok c o = true /\ member o V = true /\ holds c o = Some pol /\
+    assert_promotion c o = true /\ member o (narrow V c pol) = false.
+Proof. exact assert_promotion_refuted. Qed.
+Print Assumptions C02_assert_promotion_refuted.
+
 (* match statements: `case [a, b, *rest]` on a union of tuples of different lengths keeps exactly
    the tuples that can match, and the object that matches is covered by the main theorem *)
 Example C02_match_seq_example :
